@@ -5,8 +5,11 @@ M: TLC checks Cdxml.tla (MCCdxml): the reference model of the parser (node / bon
    look-up history; every named deviation must violate its clause.
 B: every bundled CDXML file and seeded variants of it (stereo marks mirrored, page translated, page children
    permuted, ids renumbered, atom records reordered, and compositions) are parsed by the real CDXMLFile through
-   several objects and look-up orders; an independent ElementTree walk supplies the abstract drawing; each
-   file is one trace (Drawn, Open, Parsed, Again, Related) that TLC validates against CdxmlTrace / Cdxml."""
+   several objects and look-up orders (by text and by position, with keys()/len() in between); after every look-up
+   the caller edits the molecule it was given through public calls (hydrogens added, charge edited, atom deleted,
+   coordinates moved) and looks the label up again, on the same object and on a fresh one: every look-up must yield
+   the drawing's content (object identity is only counted, never judged); an independent ElementTree walk supplies the abstract drawing; each
+   file is one trace (Drawn, Open, Keys, Parsed, Mutated, Again, Related) that TLC validates against CdxmlTrace / Cdxml."""
 from __future__ import annotations
 import json, math, random, re, shutil, time
 from concurrent.futures import ThreadPoolExecutor
@@ -25,8 +28,8 @@ KNOWN: dict = {}
 
 PROPS = ("P_ParsesAtAll", "P_ResolvesAsDrawn", "P_ResolvesStably", "P_Deterministic", "P_AtomsAsDrawn",
          "P_AttachmentPoints", "P_BondsAsDrawn", "P_ChargeMultFollow", "P_MirrorKeepsConstitution",
-         "P_MirrorFlipsHandedness", "P_Accepts")
-DEVS = {"DevChargeSign": "P_AtomsAsDrawn", "DevIsotope": "P_AtomsAsDrawn", "DevRadical": "P_AtomsAsDrawn",
+         "P_MirrorFlipsHandedness", "P_DistinctObject", "P_Accepts")
+DEVS = {"DevMemo": "P_Deterministic", "DevMemoContent": "P_AtomsAsDrawn", "DevMemoCharge": "P_ChargeMultFollow", "DevChargeSign": "P_AtomsAsDrawn", "DevIsotope": "P_AtomsAsDrawn", "DevRadical": "P_AtomsAsDrawn",
         "DevAromatic": "P_BondsAsDrawn", "DevNestedBond": "P_BondsAsDrawn", "DevNestedCharge": "P_ChargeMultFollow",
         "DevAP": "P_AttachmentPoints", "DevCache": "P_ResolvesAsDrawn", "DevHashEnd": "P_MirrorFlipsHandedness",
         "DevHashLigand": "P_MirrorKeepsConstitution"}
@@ -81,7 +84,8 @@ def guesses(drawn, label):
     return out or list(valid)[:1]
 
 
-STUB = {"fid": "", "atoms": {"_": {"el": 0, "iso": 0, "q": 0, "nrad": 0, "ap": False}}, "bonds": {"_": {"a": "_", "b": "_", "ord": ""}},
+STUB = {"fid": "", "oid": "", "atoms": {"_": {"el": 0, "iso": 0, "q": 0, "nrad": 0, "ap": False}},
+        "bonds": {"_": {"a": "_", "b": "_", "ord": ""}},
         "charge": 0, "mult": 0, "natoms": 0, "nbonds": 0, "cdig": "", "gdig": ""}
 
 
@@ -103,37 +107,74 @@ def run_file(path, tid, rnd, base=None, rel=None, keymap=None, stats=None):
     ev = [jsonable_drawn(drawn)]
     res = {}
 
-    def look(h, hid, lab, full=True):
-        out, mol = h.get(lab)
+    alive, tokens = [], {}            # every molecule ever handed out stays alive, so id() is a faithful object token
+
+    def token(mol):
+        alive.append(mol)
+        if id(mol) in tokens and stats is not None:
+            stats["reused_objects"] += 1           # informational only: object identity never decides a verdict
+        return tokens.setdefault(id(mol), f"o{len(tokens) + 1}")
+
+    def look(h, hid, lab, full=True, by_index=False, edit=None):
+        """One public look-up (by label text or by position in keys()), observed at once; then, optionally, the caller
+        edits the molecule it was given (that must never show in a later look-up)."""
+        out, mol = h.get(keys_of[hid].index(lab) if by_index else lab)
+        via = "index" if by_index else "label"
         if out != "ok":
             if full:
                 res.setdefault(lab, (out, None, None))
-                ev.append({"ev": "Parsed", "h": hid, "label": lab, "out": out, "R": STUB})
+                ev.append({"ev": "Parsed", "h": hid, "label": lab, "via": via, "out": out, "R": STUB})
             else:
-                ev.append({"ev": "Again", "h": hid, "label": lab, "out": out, "fid": "", "cdig": "", "gdig": ""})
+                ev.append({"ev": "Again", "h": hid, "label": lab, "via": via, "out": out, "fid": "", "cdig": "", "gdig": "", "oid": ""})
             return
         R, aux = A.observe(mol, drawn, lab, guesses(drawn, lab))
+        R["oid"] = token(mol)
         if full:
             res.setdefault(lab, (out, R, aux))
-            ev.append({"ev": "Parsed", "h": hid, "label": lab, "out": "ok", "R": R})
+            ev.append({"ev": "Parsed", "h": hid, "label": lab, "via": via, "out": "ok", "R": R})
         else:
-            ev.append({"ev": "Again", "h": hid, "label": lab, "out": "ok", "fid": R["fid"], "cdig": R["cdig"], "gdig": R["gdig"]})
+            ev.append({"ev": "Again", "h": hid, "label": lab, "via": via, "out": "ok", "fid": R["fid"], "cdig": R["cdig"],
+                       "gdig": R["gdig"], "oid": R["oid"]})
         if stats is not None:
             stats["calls"] += 1
             stats["digests"].add((R["cdig"], R["gdig"]))
+        if edit:
+            how = A.mutate(mol, edit)
+            ev.append({"ev": "Mutated", "h": hid, "label": lab, "oid": R["oid"], "how": how or ["none"]})
+            if stats is not None:
+                stats["mutations"] += len(how)
 
+    def keys_event(h, hid):
+        ev.append({"ev": "Keys", "h": hid, "keys": h.keys(), "n": h.n()})
+
+    keys_of = {}
     h1 = A.Handle(path)
-    ev.append({"ev": "Open", "h": 1, "keys": h1.keys()})
-    for lab in labs:
-        look(h1, 1, lab)
-    for lab in reversed(labs):                 # same object, other order: served from the label cache
-        look(h1, 1, lab, full=False)
+    keys_of[1] = h1.keys()
+    ev.append({"ev": "Open", "h": 1, "keys": keys_of[1]})
+    k0 = rnd.randrange(len(A.EDITS))
+    # pass 1: every label once, by text; the caller then works on what it got (kind of edit rotates over the labels)
+    for i, lab in enumerate(labs):
+        look(h1, 1, lab, edit=A.EDITS[(i + k0) % len(A.EDITS)])
+        if i % 7 == 3:
+            keys_event(h1, 1)
+    # pass 2: same object, other order, interleaved with keys()/len(), alternately by position and by text; every
+    # look-up must again give the drawing (a new object), not what the caller made of the earlier one; then edit again
+    for i, lab in enumerate(reversed(labs)):
+        look(h1, 1, lab, full=(i % 3 == 0), by_index=(i % 2 == 0), edit=A.EDITS[(i + k0 + 2) % len(A.EDITS)])
+        if i % 7 == 5:
+            keys_event(h1, 1)
+    # pass 3: a third look-up of a few labels, after two rounds of edits
+    for lab in rnd.sample(labs, min(len(labs), 8)):
+        look(h1, 1, lab, full=False, by_index=rnd.random() < 0.5)
     h2 = A.Handle(path)                        # a second object, seeded order: nothing may depend on the history
-    ev.append({"ev": "Open", "h": 2, "keys": h2.keys()})
+    keys_of[2] = h2.keys()
+    ev.append({"ev": "Open", "h": 2, "keys": keys_of[2]})
     order = labs[:]
     rnd.shuffle(order)
     for i, lab in enumerate(order):
-        look(h2, 2, lab, full=(i % 3 == 0))
+        look(h2, 2, lab, full=(i % 3 == 0), edit=("all" if i % 4 == 1 else None))
+    for lab in order[1::4][:6]:                # ... and again after the edits on the second object
+        look(h2, 2, lab, full=False)
     if base is not None:
         km = keymap or {}
         for lab in labs:
@@ -157,7 +198,7 @@ def run_file(path, tid, rnd, base=None, rel=None, keymap=None, stats=None):
 
 def build(tier, seed, work, only_file=None, extra=False):
     """-> traces, meta {tid: {...}}, stats"""
-    stats = {"calls": 0, "digests": set(), "pairs": 0, "nonplanar_mirror": 0, "nonplanar_same": 0}
+    stats = {"calls": 0, "mutations": 0, "reused_objects": 0, "digests": set(), "pairs": 0, "nonplanar_mirror": 0, "nonplanar_same": 0}
     traces, meta = [], {}
     pl = plan(tier) + (PLAN_EXTRA if extra else [])
     for fpath in bundled():
@@ -187,16 +228,14 @@ def build(tier, seed, work, only_file=None, extra=False):
     return traces, meta, stats
 
 
-_RE_WHY = re.compile(r'^<<"WHY", "([^"]*)", (\d+), (\{.*\})>>')
+_RE_WHY = re.compile(r'<<\s*"WHY",\s*"([^"]*)",\s*(\d+),\s*(\{.*?\})\s*>>', re.S)   # TLC wraps long tuples over several lines
 
 
 def whys(results):
     out = {}
     for r in results:
-        for line in r.stdout.splitlines():
-            m = _RE_WHY.match(line.strip())
-            if m:
-                out[(m.group(1), int(m.group(2)))] = sorted(re.findall(r'"([^"]+)"', m.group(3)))
+        for m in _RE_WHY.finditer(r.stdout):
+            out[(m.group(1), int(m.group(2)))] = sorted(re.findall(r'"([^"]+)"', m.group(3)))
     return out
 
 
@@ -229,7 +268,7 @@ def run(tier, seed, replay_path):
                                                  properties=props)
     props = PROPS if tier == "thorough" else ("P_Accepts", "P_MirrorKeepsConstitution", "P_MirrorFlipsHandedness")
     model_check(ev, "MCCdxml", mc(props=props), role=f"Cdxml reference parser model over {files}: every look-up history satisfies every clause",
-                tag="c13mc", workers=WORKERS, require_actions=("AnyLookup", "Reopen"), timeout=1500)
+                tag="c13mc", workers=WORKERS, require_actions=("AnyLookup", "AnyMutate", "Reopen"), timeout=1500)
     def one_dev(item):
         dev, prop = item
         return expect_violation("MCCdxml", dict(spec="Spec", constants={"Files": "<- FilesQ", "MaxLookups": 3, "Deviations": f"<- {dev}"},
@@ -277,11 +316,13 @@ def run(tier, seed, replay_path):
     n_main = sum(1 for t in traces if not meta[t["tid"]]["extra"])
     n_events = sum(len(t["ev"]) - 1 for t in traces if not meta[t["tid"]]["extra"])
     ev.count(evaluations=n_events, distinct_nontrivial=len(stats["digests"]), traces=n_main)
-    ev.set(rule="one evaluation = one recorded event (keys() of a new object, a look-up, a repeated look-up, or a base/variant "
+    ev.set(rule="one evaluation = one recorded event (keys()/len() of an object, a look-up by text or by position, a repeated "
+                "look-up after the caller edited the molecule it had been given, such an edit, or a base/variant "
                 "relation of one label) explained by a step of CdxmlTrace; distinct_nontrivial = distinct parsed results "
                 "(constitution digest, geometry digest) among them",
            files=sorted({m["file"] for m in meta.values()}), variants_per_file=len(plan(tier)),
-           real_lookups=stats["calls"], centre_pairs=stats["pairs"], nonplanar_pairs_mirror=stats["nonplanar_mirror"],
+           real_lookups=stats["calls"], caller_edits_between_lookups=stats["mutations"],
+           lookups_returning_an_already_handed_out_object=stats["reused_objects"], centre_pairs=stats["pairs"], nonplanar_pairs_mirror=stats["nonplanar_mirror"],
            nonplanar_pairs_same=stats["nonplanar_same"], rejected_traces=len(bad) - n_extra_bad,
            beyond_quantifier={"bond_record_order_traces": sum(1 for m in meta.values() if m["extra"]), "rejected": n_extra_bad},
            real_calls_wall_s=round(t_calls, 1), exhaustive=False)
